@@ -142,6 +142,18 @@ fn main() {
         if let (Ok(cert), Ok(key)) = (std::fs::read_to_string("/repo/lib/assets/certificate.pem"), std::fs::read_to_string("/repo/lib/assets/key.pem")) {
             u2.push(RequestType::AddCertificate(AddCertificate { address: l_https, certificate: CertificateAndKey { certificate: cert, key, certificate_chain: vec![], versions: vec![], names: vec!["a.example".into()] }, expired_at: None }).into());
         }
+        // certificates WITHOUT explicit names (the names come from the certificate itself), removal and replacement
+        if let (Ok(cert), Ok(key), Ok(cert2), Ok(key2)) = (std::fs::read_to_string("/repo/lib/assets/certificate.pem"), std::fs::read_to_string("/repo/lib/assets/key.pem"),
+                                                           std::fs::read_to_string("/repo/lib/assets/local-certificate.pem"), std::fs::read_to_string("/repo/lib/assets/local-key.pem")) {
+            use sozu_command_lib::proto::command::{RemoveCertificate, ReplaceCertificate};
+            let ck = |c: &str, k: &str| CertificateAndKey { certificate: c.to_string(), key: k.to_string(), certificate_chain: vec![], versions: vec![], names: vec![] };
+            u2.push(RequestType::AddCertificate(AddCertificate { address: l_https, certificate: ck(&cert2, &key2), expired_at: None }).into());
+            if let Ok(fp) = sozu_command_lib::certificate::calculate_fingerprint(cert2.as_bytes()) {
+                let hexfp: String = fp.iter().map(|b| format!("{b:02x}")).collect();
+                u2.push(RequestType::RemoveCertificate(RemoveCertificate { address: l_https, fingerprint: hexfp.clone() }).into());
+                u2.push(RequestType::ReplaceCertificate(ReplaceCertificate { address: l_https, new_certificate: ck(&cert, &key), old_fingerprint: hexfp, new_expired_at: None }).into());
+            }
+        }
         u2.push(RequestType::AddTcpListener(TcpListenerConfig { address: l_tcp, front_timeout: 60, back_timeout: 30, connect_timeout: 3, ..Default::default() }).into());
         let mut tags = BTreeMap::new();
         tags.insert("owner".to_string(), "team-b".to_string());
